@@ -8,7 +8,7 @@ import itertools
 from model import dense
 
 RANKS = ["K", "M", "N", "J", "P", "Q"]
-INPUTS = ["A", "B", "C", "D", "E", "F", "G", "H", "L"]
+INPUTS = ["A", "B", "C", "D", "E", "F", "G", "H", "L", "R", "S", "W", "X", "Y"]
 SIZES = [1, 2, 3, 5, 7]
 
 
@@ -224,10 +224,14 @@ def step_of(directive, extent, syms):
     return size
 
 
-def level_params(spec, extents, syms):
+def level_params(spec, extents, syms, strict=True):
     """Names the user supplies besides rank extents: symbolic sizes and level
-    extents ROOT<i> (= the step of the directive that creates level i)."""
+    extents ROOT<i> (= the step of the directive that creates level i).
+    strict=False: a level-extent name that two Einsums of a cascade would need with
+    different values is not supplied at all (it is only read for output-only and
+    index-math ranks, which cascades do not contain)."""
     params = dict(syms)
+    dropped = set()
     for einsum, d in (spec.get("partitioning") or {}).items():
         for key, dirs in d.items():
             names = [x.strip() for x in key.strip("() ").split(",")]
@@ -244,10 +248,16 @@ def level_params(spec, extents, syms):
                     continue
                 vals[root + str(n - 1 - j)] = step_of(dv, extents[root], syms)
             for k, v in vals.items():
+                if k in dropped:
+                    continue
                 if k in params and params[k] != v:
                     # a symbolic size already claims this name with another value:
                     # the spec is ambiguous for the user; caller should reject it
-                    raise AmbiguousNames(k)
+                    if strict or k in syms:
+                        raise AmbiguousNames(k)
+                    del params[k]
+                    dropped.add(k)
+                    continue
                 params[k] = v
     return params
 
@@ -303,7 +313,7 @@ def gen_inputs(rng, spec, extents, syms, style):
     for e in spec["exprs"]:
         for s in dense.expr_scalars(e):
             scalars[s] = rng.randint(2, 5)
-    return {"extents": dict(extents), "params": level_params(spec, extents, syms),
+    return {"extents": dict(extents), "params": level_params(spec, extents, syms, strict=len(spec["exprs"]) == 1),
             "scalars": scalars, "tensors": tensors, "style": style}
 
 
@@ -522,4 +532,206 @@ def gen_affine(rng, allow_k3=False):
     meta = {"ranks": default_loop_order(spec, "O"), "dims": dims, "extents": extents, "derived_extents": derived,
             "part": part, "syms": {}, "lo_mode": lo_mode, "nlevels": sum(plevels.values()), "npart": len(plevels),
             "out_only": [], "kind": "affine"}
+    return spec, meta
+
+
+# --------------------------------------------------------------------- class K
+
+def gen_cascade(rng, n_min=2, n_max=4, partition_p=0.5):
+    """Cascade of 2-4 Einsums; later Einsums read earlier outputs; per-Einsum mappings
+    (shape stacks, occupancy stacks, loop orders)."""
+    n = rng.randint(n_min, n_max)
+    fresh = list(INPUTS)
+    out_names = ["T", "U", "V", "Z"][:n - 1] + ["Z"] if n < 5 else None
+    out_names = (["T", "U", "V"][:n - 1]) + ["Z"]
+    decl = {}
+    exprs = []
+    part = {}
+    lo = {}
+    syms = {}
+    einsum_meta = []
+    extents = {}
+    produced = []   # (name, ranks)
+    for i in range(n):
+        # ranks of this Einsum
+        reuse = [p for p in produced if rng.random() < (0.8 if p is produced[-1] else 0.3)] if produced else []
+        base = []
+        for _, rs in reuse:
+            for r in rs:
+                if r not in base:
+                    base.append(r)
+        want = _choice_w(rng, [(1, 2), (2, 5), (3, 3)])
+        pool = [r for r in RANKS if r not in base]
+        rng.shuffle(pool)
+        ranks = base + pool[:max(0, want - len(base))]
+        if not ranks:
+            ranks = [pool[0]]
+        for r in ranks:
+            extents.setdefault(r, rng.randint(1, 6))
+        nterms = 1 if (reuse and rng.random() < 0.7) or rng.random() < 0.7 else 2
+        terms = []
+        for t_i in range(nterms):
+            facs = []
+            covered = set()
+            if t_i == 0:
+                for name, rs in reuse:
+                    facs.append((name, rs))
+                    covered.update(rs)
+            nfresh = _choice_w(rng, [(0, 2), (1, 5), (2, 2)]) if facs else _choice_w(rng, [(1, 4), (2, 5)])
+            if nterms == 2 and t_i == 1 and nfresh == 0:
+                nfresh = 1
+            fr = [[] for _ in range(nfresh)]
+            for r in ranks:
+                if nfresh and (r not in covered or rng.random() < 0.5):
+                    owners = [j for j in range(nfresh) if rng.random() < 0.5] or [rng.randrange(nfresh)]
+                    if r not in covered:
+                        covered.add(r)
+                    for j in owners:
+                        fr[j].append(r)
+            if set(ranks) - covered:
+                # needs a fresh tensor to cover the remaining ranks
+                fr.append([r for r in ranks if r not in covered])
+            for rs in fr:
+                name = fresh.pop(0)
+                rs = _perm(rng, rs)
+                decl[name] = rs
+                facs.append((name, rs))
+            rng.shuffle(facs)
+            terms.append(" * ".join(nm + _access(rs) for nm, rs in facs))
+        out = out_names[i]
+        out_ranks = _perm(rng, _subset(rng, ranks, 0.6))
+        decl[out] = list(out_ranks)
+        expr = out + _access(out_ranks) + " = " + " + ".join(terms)
+        exprs.append(expr)
+        produced.append((out, list(out_ranks)))
+        # per-Einsum mapping
+        tmp_spec = {"decl": decl, "exprs": [expr]}
+        all_ranks = default_loop_order(tmp_spec, out, expr)
+        em = {"out": out, "ranks": all_ranks, "kind": "plain"}
+        groups = [[r] for r in all_ranks]
+        if rng.random() < partition_p and nterms == 1:
+            pk = rng.choice(["shape", "occ"])
+            p = {}
+            hold = holders_of(tmp_spec, expr)
+            chosen = [r for r in all_ranks if rng.random() < 0.5] or [rng.choice(all_ranks)]
+            for r in chosen:
+                if pk == "shape":
+                    dirs, s = shape_stack(rng, r, extents[r], max_levels=2, symbolic_p=0.0)
+                else:
+                    dirs, s = occ_stack(rng, r, hold[r], extents[r])
+                    s = {}
+                    dirs = [d for d in dirs if "." not in d or d.split(".")[1].rstrip(")").isdigit()] or \
+                        ["uniform_occupancy(%s.2)" % hold[r][0]]
+                p[r] = dirs
+            part[out] = p
+            groups = [levels_of(r, len(p[r])) if r in p else [r] for r in all_ranks]
+            em["kind"] = pk
+            em["part"] = p
+        if rng.random() < 0.6:
+            lo[out] = loop_order_over(rng, groups, "ordered")
+        einsum_meta.append(em)
+    # declaration order shuffled
+    items = list(decl.items())
+    rng.shuffle(items)
+    decl = dict(items)
+    spec = {"decl": decl, "exprs": exprs, "rank_order": None, "partitioning": part or None,
+            "loop_order": lo or None, "spacetime": None, "arch": None, "bindings": None, "format": None}
+    if rng.random() < 0.4:
+        ro = {}
+        for t, rs in decl.items():
+            if len(rs) > 1 and rng.random() < 0.4:
+                ro[t] = _perm(rng, rs)
+        spec["rank_order"] = ro or None
+    meta = {"einsums": einsum_meta, "syms": syms, "extents": extents, "n": n,
+            "nlevels": sum(len(d) for p in part.values() for d in p.values()), "npart": len(part)}
+    return spec, meta
+
+
+# --------------------------------------------------------------------- class T
+
+def effective_loop_order(spec, out):
+    """The loop ranks of Einsum `out`: the explicit loop order, else the canonical default
+    (output ranks as written, then the rest by first appearance, each partitioned rank
+    replaced in place by its levels outermost to innermost).  Flattening is not handled
+    here (callers use explicit loop orders for flattened specs)."""
+    lo = (spec.get("loop_order") or {}).get(out)
+    if lo:
+        return list(lo)
+    base = default_loop_order(spec, out)
+    part = (spec.get("partitioning") or {}).get(out) or {}
+    res = []
+    for r in base:
+        if r in part:
+            n = len([d for d in part[r] if not d.startswith(("follow", "flatten"))])
+            res.extend(levels_of(r, n) if n else [r])
+        else:
+            res.append(r)
+    return res
+
+
+def add_spacetime(rng, spec, out, loop_ranks, allow_coord=True, no_coord=()):
+    k = rng.randint(0, len(loop_ranks))
+    idx = sorted(rng.sample(range(len(loop_ranks)), k))
+    space = [loop_ranks[i] for i in idx]
+    time = [r for r in loop_ranks if r not in space]
+    rng.shuffle(time) if rng.random() < 0.2 else None
+
+    def style(r):
+        x = rng.random()
+        if allow_coord and x < 0.35 and r.rstrip("0123456789") not in no_coord:
+            return r + ".coord"
+        if x < 0.6:
+            return r + ".pos"
+        return r
+    st = {"space": [style(r) for r in space], "time": [style(r) for r in time]}
+    if rng.random() < 0.25:
+        st["opt"] = "slip"
+    spec["spacetime"] = dict(spec.get("spacetime") or {})
+    spec["spacetime"][out] = st
+    return st
+
+
+def gen_spacetime(rng):
+    base = _choice_w(rng, [("P", 3), ("S", 4), ("O", 3)])
+    if base == "P":
+        spec, meta = gen_plain(rng)
+        meta.update({"part": {}, "syms": {}, "extents": gen_extents(rng, spec), "nlevels": 0, "npart": 0})
+    elif base == "S":
+        spec, meta = gen_shape(rng)
+    else:
+        spec, meta = gen_occ(rng)
+        if meta["omode"] == "flatten" and not spec.get("loop_order"):
+            # default loop order of a flattened spec: let the explicit one be written
+            return gen_spacetime(rng)
+    loop_ranks = effective_loop_order(spec, "Z")
+    # coordinate-style stamps on a flattened rank are known finding C16-FLATCOORD (witness only)
+    flat_roots = []
+    for key in (spec.get("partitioning") or {}).get("Z", {}):
+        if key.startswith("("):
+            flat_roots.append("".join(x.strip() for x in key.strip("() ").split(",")))
+    st = add_spacetime(rng, spec, "Z", loop_ranks, no_coord=[f.rstrip("0123456789") for f in flat_roots] + flat_roots)
+    meta.update({"base": base, "loop_ranks": loop_ranks, "st": st})
+    return spec, meta
+
+
+# --------------------------------------------------------------------- mixtures
+
+def gen_mixed(rng, weights=None):
+    """Draw from the legal classes; meta['class'] says which."""
+    weights = weights or [("S", 4), ("O", 4), ("A", 2), ("K", 3), ("T", 3), ("P", 1)]
+    c = _choice_w(rng, weights)
+    if c == "S":
+        spec, meta = gen_shape(rng)
+    elif c == "O":
+        spec, meta = gen_occ(rng)
+    elif c == "A":
+        spec, meta = gen_affine(rng)
+    elif c == "K":
+        spec, meta = gen_cascade(rng)
+    elif c == "T":
+        spec, meta = gen_spacetime(rng)
+    else:
+        spec, meta = gen_plain(rng)
+        meta.update({"part": {}, "syms": {}, "extents": gen_extents(rng, spec), "nlevels": 0, "npart": 0})
+    meta["class"] = c
     return spec, meta
